@@ -26,6 +26,7 @@ ASSUMPTIONS = ["text equality of unparsed artefacts is the observable", "emitter
 # doctrans is compared with itself here (shared vs fresh object), so every shape is fair game: operations that fail on
 # a fresh object are skipped (they are judged by C02-C04/C06)
 CORE_ALLOWED = tuple(k for k in domain.MUTATORS if not k.startswith("long_"))
+TIDY = ("kwargs_param", "float_default", "negative_int", "zero_int", "bool_false", "none_default", "returns", "prose_trailing_stop", "str_with_space")
 FRONTIER_KNOBS = ()
 FLOORS = {"returns": 0.15, "body": 0.2}
 OPS = ("class", "class_call", "function", "argparse", "docstring")
@@ -68,7 +69,11 @@ def _body(draw, names):
 
 @st.composite
 def _case(draw):
-    ir = draw(domain.ir_strategy(allowed=CORE_ALLOWED, max_params=4))
+    # half of the descriptions are tidy ones (few shapes, so that most operations succeed on them); a return entry with a
+    # default is forced into a third - it is what the class / function emitters move around and cut from the body
+    tidy = draw(st.booleans())
+    forced = draw(st.sampled_from((None, None, "returns_default")))
+    ir = draw(domain.ir_strategy(allowed=TIDY if tidy else CORE_ALLOWED, forced=forced, max_params=4))
     body = None
     if draw(st.booleans()):
         body = draw(_body([p["name"] for p in ir["params"] if not p["name"].endswith("kwargs")]))
